@@ -439,6 +439,7 @@ func sweepDelays1(out *Out, impl int64, cur0 uint64, delays []int64) {
 	}
 	var got []int64
 	step := func(n int64) bool { // advance n units in one worker tick step
+		drv.Alive()
 		got = got[:0]
 		d.Pass(n)
 		if impl == drv.ImplWheel && n <= 2 {
